@@ -701,7 +701,15 @@ class AsyncServer(base_server.BaseServer):
                                        pkt.data)
             elif pkt.packet_type == packet.BINARY_EVENT or \
                     pkt.packet_type == packet.BINARY_ACK:
-                self._binary_packet[eio_sid] = pkt
+                if pkt.attachment_count > 0:
+                    self._binary_packet[eio_sid] = pkt
+                elif pkt.packet_type == packet.BINARY_EVENT:
+                    # no attachments were announced, nothing to wait for
+                    await self._handle_event(eio_sid, pkt.namespace, pkt.id,
+                                             pkt.data)
+                else:
+                    await self._handle_ack(eio_sid, pkt.namespace, pkt.id,
+                                           pkt.data)
             elif pkt.packet_type == packet.CONNECT_ERROR:
                 raise ValueError('Unexpected CONNECT_ERROR packet.')
             else:
